@@ -209,6 +209,11 @@ pub fn gen_project(seed: u64) -> Project {
             g.project.files.entry(k).or_insert(v);
         }
     }
+    // A diagnostics limit makes "which diagnostics survive" a function of the processing
+    // order if anything but errors is counted against it.
+    if rng.chance(1, 3) {
+        g.project.toml.extra_build.push(format!("error_count_limit = {}", 1 + rng.below(3)));
+    }
     g.project
 }
 
